@@ -16,6 +16,7 @@ invocation blocks until killed (real-thread mode has no other timing construct).
 """
 import functools
 import itertools
+import sys
 import threading
 import time
 
@@ -135,7 +136,8 @@ def _cond(draw):
 def _diag(draw, test_level=False):
   kind = _weighted(draw, [('emit', 16), ('raise', 2), ('garbage', 1)])
   if kind == 'raise':
-    return {'raise': 1}
+    # one in five: the diagnoser gives up the way a script would - sys.exit(), a BaseException that is not an Exception
+    return {'raise': 'exit'} if draw(st.integers(0, 4)) == 0 else {'raise': 1}
   if kind == 'garbage':
     return {'garbage': 1}
   n = _weighted(draw, [(1, 8), (0, 1), (2, 3)])
@@ -545,6 +547,9 @@ def _mk_diag(d, ctx, htf, tag, test_level):
 
   def run(*args):
     ctx.log('tdiag' if test_level else 'diag', *tag)
+    if d.get('raise') == 'exit':
+      ctx.log('user-code-exit', 'tdiag' if test_level else 'diag', *tag)
+      sys.exit('diagnoser %r: giving up' % (tag,))
     if d.get('raise'):
       raise DiagBoom('diag %r' % (tag,))
     if d.get('garbage'):
@@ -693,6 +698,8 @@ def make_plug_classes(specs, ctx, htf):
       ctx.log('plug-ctor-enter', i)
       if sp.get('ctor') == 'raise':
         raise PlugBoom('ctor of plug %d' % i)
+      if sp.get('ctor') == 'raise-exit':
+        sys.exit('plug %d: instrument not found' % i)     # a constructor that gives up the way a script would
       if sp.get('ctor') == 'raise-once' and ('raised-once', i) not in ctx.flags:
         ctx.flags.add(('raised-once', i))      # a transient fault: the instrument was unreachable this one time
         raise PlugBoom('ctor of plug %d (first time only)' % i)
